@@ -293,7 +293,16 @@ func HostileInputs(r *vlib.Rng, w *World, f Flavour, count int) []Input {
 		case 8: // decryption trigger (snapshot keyper)
 			m, _ := p2pmsg.NewSignedDecryptionTrigger(w.InstanceID, ids[0], uint64(w.Activation+1), r.Bytes(32), w.Keypers.Keys[0])
 			label := "trigger/"
-			switch r.Intn(6) {
+			switch r.Intn(9) {
+			case 6, 7:
+				// correctly signed by the collator, with an identity preimage of an unusual length
+				l := []int{0, 1, 2, 3, 4, 31, 33, 64, 5000}[r.Intn(9)]
+				m, _ = p2pmsg.NewSignedDecryptionTrigger(w.InstanceID, r.Bytes(l), uint64(w.Activation+1), r.Bytes(32), w.Keypers.Keys[0])
+				label += fmt.Sprintf("id-len=%d-signed", l)
+			case 8:
+				l := []int{0, 1, 31, 33, 5000}[r.Intn(5)]
+				m, _ = p2pmsg.NewSignedDecryptionTrigger(w.InstanceID, ids[0], uint64(w.Activation+1), r.Bytes(l), w.Keypers.Keys[0])
+				label += fmt.Sprintf("txhash-len=%d-signed", l)
 			case 0:
 				m.BlockNumber = bigU[r.Intn(len(bigU))]
 				label += "block=big"
